@@ -168,14 +168,17 @@ def run(facts, rep):
          known=bool(vv.get('deg')) and all(re.match(r'&deg_trip\(arg1, arg2\)\.\d$', x) for x in vv['deg']))
     qs = False
     ps_ = False
-    for k, cb in facts.bodies.items():
-        if k.startswith(CR + 'update_vecs::{closure'):
-            for p in SymEx(cb).run():
-                for e in p.calls():
-                    if e.name.split('::')[-1] == 'at' and re.search(r'\^(_ref__)?q\b', sk(e.args[0])):
-                        qs = True
-                    if e.name.split('::')[-1] == 'at' and re.search(r'\^(_ref__)?p\b', sk(e.args[0])):
-                        ps_ = True
+    for e, p in cs:
+        if e.name.split('::')[-1] == 'extract' and len(e.args) == 3 and strip(e.args[2])[0] == 'closure':
+            # the index map of the extraction, applied to a symbolic index (captures substituted)
+            for q_ in apply_closure(strip(e.args[2]), [('item',)]) or []:
+                for e2 in q_.calls():
+                    if e2.name.split('::')[-1] == 'at' and e2.args:
+                        who = sk(e2.args[0]).replace('&', '').replace('*', '')
+                        if who == 'arg5':
+                            qs = True
+                        elif who == 'arg4':
+                            ps_ = True
     need(qs, 'update_vecs', 'source-side vectors are extracted with p instead of q' if ps_ else 'source-side vectors are not extracted with q', known=ps_)
 
     # reduce_at_spec
